@@ -44,7 +44,20 @@ def history_prepass(ctx, repo, pid):
     from .memo import scan_files
     files = [f for f in anchor_files(pid) if os.path.isfile(os.path.join(repo.root, f))]
     res, n_fn = scan_files(repo, files)
-    ctx.rule('HIST', 'no function of the anchor files keeps a non-transparent memo (key = plain arguments, complete, stores what it '
+    # only the functions the property speaks about: the call-graph closure of its entry points (sa/scope.py)
+    from .scope import hist_scope
+    sc = hist_scope(repo, pid)
+    if sc is not None:
+        scope, missing = sc
+        if missing:
+            raise AnalysisError('anchor vanished: entry point(s) %s' % ', '.join(missing))
+        extra = sorted({rel for rel, q in scope} - set(files))
+        if extra:
+            res2, n2 = scan_files(repo, extra)
+            res += res2
+        res = [r for r in res if (r[0], r[1]) in scope]
+        n_fn = len(scope)
+    ctx.rule('HIST', 'no function in the call-graph closure of the property\'s entry points keeps a non-transparent memo (key = plain arguments, complete, stores what it '
                      'returns) or changes an entry of a shared table in place')
     seen = set()
     for rel, q, rule, msg, node in res:
@@ -52,11 +65,11 @@ def history_prepass(ctx, repo, pid):
         if k in seen:
             continue
         seen.add(k)
-        ctx.finding('HIST', '%s::%s::%s' % (rel, q, 'memo ' + rule if rule != 'ALIAS' else 'shared entry changed in place'), rel, node.lineno, msg,
+        ctx.finding('HIST', '%s::%s::%s' % (rel, q, {'ALIAS': 'shared entry changed in place', 'STALE': 'derived attribute not invalidated'}.get(rule, 'memo ' + rule)), rel, node.lineno, msg,
                     'the same function called twice in one process with inputs the memo key does not separate')
     ctx.count('functions scanned for history dependence', n_fn)
     if not res:
-        ctx.ok('HIST', '%d functions of %d anchor files: no opaque memo, no shared entry changed in place' % (n_fn, len(files)))
+        ctx.ok('HIST', '%d functions reachable from the entry points: no opaque memo, no shared entry changed in place' % n_fn)
 
 
 def run_check(pid, tier, repo_root, seed, replay=None, quiet=False, evidence=True):
